@@ -6,6 +6,7 @@ import QR.Proofs.SourceTieC11
 import QR.Proofs.Pinned
 import QR.Proofs.SourceTieB2
 import QR.Proofs.CapstoneE3
+import QR.Proofs.CapstoneE5
 /-
 C11 - a compile depends only on current data and settings, never on history.  (Invariant proof under construction.)
 -/
@@ -425,6 +426,120 @@ theorem C11_source_capstone_add_data {F : Type} (fac : Option F) (g : Global) (h
   simp only [Agrees, step] at ha
   refine ⟨_, Except.ok.inj ha.1, rfl, ?_⟩
   exact C11_source_capstone_make fit g hg { s with dataList := s.dataList ++ addData d n, dataCache := none } hv
+
+/-! #### operation sequences executed by the translated code (`QR.CapstoneE5.stepSrc` / `runSrc`) -/
+section CapstoneSeq
+open QR.CapstoneE5
+
+/-- **capstone (C11 itself), ANY sequence of operations executed by the TRANSLATED code** (`CapstoneE5.runSrc`, the fold of
+    `stepSrc`: `main.py:QRCode.add_data` = `ob_add_data`, `clear` = `ob_clear`, `make` = `makeSrc`, the property setters
+    `version` / `mask_pattern` / `border` = `ob_set_*`, `get_matrix` = `get_matrix_compile_test` + `make` + `get_matrix_early` /
+    `get_matrix_code`, `make_image` = `ob_make_image`, `print_ascii` / `print_tty` = their translated implicit-compile tests +
+    `make`, a compile by another object = `makeSrc`; `error_correction` / `box_size` are plain attribute assignments; the only
+    Model fallback is `.mutateModules`, which is the CALLER writing into `qr.modules`, not library code), started on the object
+    of any state with `version ≤ 40` and a blank cache satisfying the invariant: the run ends on the object of a state `s`
+    (unique: `toOb_injective`) with the cache invariant, and `make(fit)` (`makeSrc`, the translated `make`; callees `best_fit`,
+    `best_mask_pattern`, `makeImpl` = the Model's `bestFitS`, `bestMaskS`, `makeImplS`) then yields exactly what the cache-free
+    reference compile (`Model.compile`) of a fresh object with the same settings and data yields, or the same error.
+    From `CapstoneE5.runSrc_sim_gen` (induction over the single-step bridges `C11_source_*`, `C18_source_*`), `C11_source_makeS_src`,
+    `C11_history_free`.  Hypotheses of the `make_image` bridge kept: no embedded image in `kwargs`, or level H throughout (`hk`, `CapstoneE5.EmbeddedOK`), the factory argument a
+    subclass of `BaseImage` (`hf`); the arguments of the setters are integers or `None` (by the type of `Model.Op`). -/
+theorem C11_source_capstone_history_free {F K : Type} (E : ImgEnv F K)
+    (hf : ∀ f, E.arg = some f → E.issub f = true) (fac : Option F) (ops : List Op) (g0 : Global) (hg : Global.Inv g0)
+    (s0 : QRState) (hv : s0.version ≤ 40) (hk : EmbeddedOK E s0 ops) :
+    ∃ g s outs, runSrc E (g0, toOb fac s0) ops = ((g, toOb fac s), outs) ∧ Global.Inv g ∧ ∀ fit : Bool,
+      match makeSrc fit g s with
+      | ((g', s'), .ok ()) => Global.Inv g' ∧
+          ∃ m, compile { version := s.version, level := s.level, mask := s.mask, fit := fit } s.dataList =
+            .ok (s'.version, m, s'.modules)
+      | ((g', _), .error e) => Global.Inv g' ∧
+          compile { version := s.version, level := s.level, mask := s.mask, fit := fit } s.dataList = .error e := by
+  have sim := runSrc_sim_gen E hf fac g0 hg s0 ops hk
+  have h := C11_history_free ops g0 hg s0 hv
+  cases hr : run (g0, s0) ops with
+  | mk st outs =>
+    obtain ⟨g, s⟩ := st
+    rw [hr] at sim h
+    refine ⟨g, s, _, sim, h.1, fun fit => ?_⟩
+    rw [← makeS_eq_makeSrc]
+    exact h.2 fit
+
+/-- **capstone, the same from ANY state** (even `version > 40`, which no setter accepts): success is always that of the
+    reference compile; a failure is a failure of the reference compile, of the same class as soon as `version ≤ 40`.
+    From `CapstoneE5.runSrc_sim_gen`, `C11_source_makeS_src`, `C11_history_free_any`. -/
+theorem C11_source_capstone_history_free_any {F K : Type} (E : ImgEnv F K)
+    (hf : ∀ f, E.arg = some f → E.issub f = true) (fac : Option F) (ops : List Op) (g0 : Global) (hg : Global.Inv g0)
+    (s0 : QRState) (hk : EmbeddedOK E s0 ops) :
+    ∃ g s outs, runSrc E (g0, toOb fac s0) ops = ((g, toOb fac s), outs) ∧ Global.Inv g ∧ ∀ fit : Bool,
+      match makeSrc fit g s with
+      | ((g', s'), .ok ()) => Global.Inv g' ∧
+          ∃ m, compile { version := s.version, level := s.level, mask := s.mask, fit := fit } s.dataList =
+            .ok (s'.version, m, s'.modules)
+      | ((g', _), .error e) => Global.Inv g' ∧
+          (∃ e', compile { version := s.version, level := s.level, mask := s.mask, fit := fit } s.dataList =
+            .error e') ∧
+          (s.version ≤ 40 →
+            compile { version := s.version, level := s.level, mask := s.mask, fit := fit } s.dataList = .error e) := by
+  have sim := runSrc_sim_gen E hf fac g0 hg s0 ops hk
+  have h := C11_history_free_any ops g0 hg s0
+  cases hr : run (g0, s0) ops with
+  | mk st outs =>
+    obtain ⟨g, s⟩ := st
+    rw [hr] at sim h
+    refine ⟨g, s, _, sim, h.1, fun fit => ?_⟩
+    rw [← makeS_eq_makeSrc]
+    exact h.2 fit
+
+/-- **capstone, from the constructor on**: whenever the translated `main.py:QRCode.__init__` (`ob_init`, with `util.check_version`
+    = `checkVersionOb`, integer / `None` arguments, `image_factory` `None` or a subclass of `BaseImage`) returns an object `o`,
+    every sequence of operations executed by the translated code on `o`, from the empty process cache, ends on the object of a
+    state on which `make(fit)` (`makeSrc`) yields exactly what the reference compile of the same settings and data yields, or
+    the same error.  From `C18_source_construct_src` (restated here from `SourceTieD2.construct_src`),
+    `C11_source_capstone_history_free`. -/
+theorem C11_source_capstone_history_free_constructed {F K : Type} (E : ImgEnv F K)
+    (hf : ∀ f, E.arg = some f → E.issub f = true) (fac : Option F) (hfac : ∀ f, fac = some f → E.issub f = true)
+    (self0 : ob_QR Seg (List Nat) F) (version : Option Int) (level : Nat) (box border : Int) (mask : Option Int)
+    (o : ob_QR Seg (List Nat) F)
+    (hc : ob_init checkVersionOb E.issub self0 (optVal version) (.int level) (.int box) (.int border) fac (optVal mask) = .ok o)
+    (ops : List Op) (hk : E.embedded = false ∨ (level = 2 ∧ ∀ l, Op.setLevel l ∈ ops → l = 2)) :
+    ∃ g s outs, runSrc E ({ blanks := [] }, o) ops = ((g, toOb fac s), outs) ∧ Global.Inv g ∧ ∀ fit : Bool,
+      match makeSrc fit g s with
+      | ((g', s'), .ok ()) => Global.Inv g' ∧
+          ∃ m, compile { version := s.version, level := s.level, mask := s.mask, fit := fit } s.dataList =
+            .ok (s'.version, m, s'.modules)
+      | ((g', _), .error e) => Global.Inv g' ∧
+          compile { version := s.version, level := s.level, mask := s.mask, fit := fit } s.dataList = .error e := by
+  rw [QR.SourceTieD2.construct_src E.issub fac hfac] at hc
+  cases hcon : construct version level box border mask with
+  | error e => rw [hcon] at hc; simp [liftR, Except.map] at hc
+  | ok s0 =>
+    rw [hcon] at hc
+    simp only [liftR, Except.map, Except.ok.injEq] at hc
+    subst hc
+    exact C11_source_capstone_history_free E hf fac ops _ Global.inv_empty s0 (construct_inv hcon).1.1
+      (hk.imp id fun h => ⟨(construct_level hcon).trans h.1, h.2⟩)
+
+/-- instance: the translated code runs `add_data(b"123", optimize=0)`, `clear()`, `version = 5`, `mask_pattern = 3` on `QRCode()` and
+    ends (evaluated by `rfl`) on the object of the default state with version 5, mask 3 and NO data; by
+    `C11_source_capstone_history_free` a `make(fit)` there is the reference compile of exactly these settings and data -/
+example :
+    (runSrc exampleEnv ({ blanks := [] }, toOb none exampleState)
+      [.addData [49, 50, 51] 0, .clear, .setVersion (some 5), .setMask (some 3)]).1.2 =
+      toOb none { exampleState with version := 5, mask := some 3 } ∧
+    ∃ g s outs, runSrc exampleEnv ({ blanks := [] }, toOb none exampleState)
+      [.addData [49, 50, 51] 0, .clear, .setVersion (some 5), .setMask (some 3)] = ((g, toOb none s), outs) ∧
+      Global.Inv g ∧ ∀ fit : Bool,
+        match QR.CapstoneE3.makeSrc fit g s with
+        | ((g', s'), .ok ()) => Global.Inv g' ∧
+            ∃ m, compile { version := s.version, level := s.level, mask := s.mask, fit := fit } s.dataList =
+              .ok (s'.version, m, s'.modules)
+        | ((g', _), .error e) => Global.Inv g' ∧
+            compile { version := s.version, level := s.level, mask := s.mask, fit := fit } s.dataList = .error e :=
+  ⟨rfl, C11_source_capstone_history_free exampleEnv (by intro f h; cases h)
+    (none : Option Unit) [.addData [49, 50, 51] 0, .clear, .setVersion (some 5), .setMask (some 3)]
+    { blanks := [] } Global.inv_empty exampleState (by decide) (Or.inl rfl)⟩
+
+end CapstoneSeq
 end Capstone
 
 /-- the Python functions this property's model mirrors have, in /repo's current working tree, exactly the normalised
